@@ -330,3 +330,17 @@ PROPS['C18'] = {
     'exhaustive_scope': 'the listed finite product',
     'assumptions': COMMON_ASSUME + ["rustc's const evaluator (Miri engine) is the UB oracle at compile time", "const fns found by grepping the crate's sources that have no template are listed in the evidence (const_fns_without_template)"],
 }
+
+import c20 as _c20
+PROPS['C20'] = {
+    'level': 'exploration',
+    'technique': 'bounded exhaustive enumeration of generated arr!/box_arr! invocations; rustc decides the inferred length type against explicit annotations, the built program decides contents and evaluation order against native array literals and an evaluation log',
+    'parts': [_c20.part()],
+    'rule': ("list form with every element count 0..=64, 100, 128, 255, 256, with and without a trailing comma, element expressions that append their index to an evaluation log, bound to an explicitly annotated GenericArray<_, U<count>> (the length type is a compile-time fact), "
+             "compared with the native array literal; the same arguments through box_arr! (equal to the arr! result, same evaluation log); String and drop-tracked elements (no element dropped while the array is alive, each dropped once after); the list form in const, "
+             "static and const fn position; both repeat forms (type-level and constant length) for N in {0,1,2,3,5,7,8,15,16,17,31,32,33,64,100,255,256,1000,1024} in let, const, static and const fn position with x evaluated exactly once, and through box_arr!; "
+             "box_arr! repeat forms with a moved non-Copy value; U4096, empty and nested forms. A case is one generated function; a compile error inside it or a failed run-time expectation is a violation. Non-trivial = non-empty arrays."),
+    'exhaustive': True,
+    'exhaustive_scope': 'the listed finite family of invocations',
+    'assumptions': COMMON_ASSUME,
+}
